@@ -11,6 +11,7 @@ import (
 	"sync/atomic"
 
 	"github.com/aml-org/amf-custom-validator/pkg"
+	"github.com/aml-org/amf-custom-validator/pkg/config"
 	"github.com/open-policy-agent/opa/ast"
 	"github.com/open-policy-agent/opa/types"
 )
@@ -246,7 +247,7 @@ func c08Profile(code, position string) string {
 func init() {
 	Register(Meta{
 		ID: "C08", Level: "exploration",
-		Rule:        "B x P x S: B = every built-in registered in the linked engine (ast.Builtins of the OPA version the repository links, so a dependency bump changes B); P = 15 embedding positions of the profile language (top-level rego / regoModule / code+message, under a path as rego / regoModule, under not, and/or operand, if/then/else, inside nested, inside atLeast, a helper in rego_extensions called from a validation, also under nested+not); S = 10 call syntaxes (statement, unification, assignment, array/set/object comprehension, every, argument of another call, negated, some-in; relation form for walk) + 9 doubly-invalid forms for the denied built-ins (the call next to a future keyword used as an identifier, an unknown function, a type error, an unsafe variable, garbage, a repeated import: rejected for whatever reason, nothing evaluated). Arguments are synthesised from the declared type. Denied set F = {http.send, net.lookup_ip_addr, opa.runtime, rego.parse_module, walk}: every (p,s) must be rejected by CompileProfile and by Validate, with zero resolver/dial attempts recorded by the instrumented net.DefaultResolver and loopback listener. All other built-ins are vacuity controls (the same templates must compile). Non-trivial = (builtin, position, syntax) for a denied built-in; distinct by profile text.",
+		Rule:        "B x P x S: B = every built-in registered in the linked engine (ast.Builtins of the OPA version the repository links, so a dependency bump changes B); P = 15 embedding positions of the profile language (top-level rego / regoModule / code+message, under a path as rego / regoModule, under not, and/or operand, if/then/else, inside nested, inside atLeast, a helper in rego_extensions called from a validation, also under nested+not); S = 10 call syntaxes (statement, unification, assignment, array/set/object comprehension, every, argument of another call, negated, some-in; relation form for walk) + 9 doubly-invalid forms for the denied built-ins (the call next to a future keyword used as an identifier, an unknown function, a type error, an unsafe variable, garbage, a repeated import: rejected for whatever reason, nothing evaluated). Arguments are synthesised from the declared type. Denied set F = {http.send, net.lookup_ip_addr, opa.runtime, rego.parse_module, walk}: every (p,s) must be rejected by CompileProfile, by Validate and by ValidateWithConfiguration under 3 report configurations (zero value, no dateCreated, custom schema IRIs) x 2 clocks, with zero resolver/dial attempts recorded by the instrumented net.DefaultResolver and loopback listener. All other built-ins are vacuity controls (the same templates must compile). Non-trivial = (builtin, position, syntax) for a denied built-in; distinct by profile text.",
 		Assumptions: []string{"only the five built-ins the property names are required to be denied"},
 	}, c08Gen, c08Run)
 }
@@ -384,6 +385,20 @@ func c08Run(c *Ctx, cs c08Case) {
 		c.Eval(1)
 		if r.Err == nil {
 			c.Violate("C08 Validate accepts a profile that CompileProfile rejects", prof, nil)
+		}
+		// ... under every report configuration and clock (the configuration must not reach the compiler's options)
+		noDate := DefaultReportConf()
+		noDate.IncludeReportCreationTime = false
+		for ci, rc := range []config.ReportConfiguration{{}, noDate, {IncludeReportCreationTime: true, ReportSchemaIri: "http://a.ml/custom/report.yaml", LexicalSchemaIri: "http://a.ml/custom/lexical.yaml"}} {
+			for _, clk := range []config.ValidationConfiguration{Epoch2000, config.DefaultValidationConfiguration{}} {
+				rr := protect(func() (string, error) {
+					return pkg.ValidateWithConfiguration(prof, c08Data, cs.Debug, nil, clk, rc)
+				})
+				c.Eval(1)
+				if rr.Err == nil && rr.Panic == nil {
+					c.Violate("C08 denied built-in "+cs.Builtin+" accepted by ValidateWithConfiguration under a non-default configuration", fmt.Sprintf("report configuration #%d %+v\nposition=%s syntax=%s\nprofile:\n%s", ci, rc, cs.Position, cs.Syntax, prof), nil)
+				}
+			}
 		}
 		if after := atomic.LoadInt64(&c08NetAttempts); after != before {
 			c.Violate("C08 network attempt although the profile was rejected", fmt.Sprintf("%d attempt(s)\n%s", after-before, prof), nil)
